@@ -56,6 +56,7 @@ type PeerConnection struct {
 	idpLoginURL *string
 
 	isClosed                                *atomic.Bool
+	connectionStateLock                     sync.Mutex
 	isGracefullyClosingOrClosed             bool
 	isCloseDone                             chan struct{}
 	isGracefulCloseDone                     chan struct{}
@@ -834,6 +835,11 @@ func (pc *PeerConnection) updateConnectionState(
 	iceConnectionState ICEConnectionState,
 	dtlsTransportState DTLSTransportState,
 ) {
+	// Compute, compare and publish as one step: concurrent updates (ICE or
+	// DTLS callbacks racing with Close) must not overwrite a newer state.
+	pc.connectionStateLock.Lock()
+	defer pc.connectionStateLock.Unlock()
+
 	connectionState := PeerConnectionStateNew
 	switch {
 	// The RTCPeerConnection object's [[IsClosed]] slot is true.
